@@ -141,7 +141,8 @@ def log_site_likelihoods_extended(top, blen, Qn, pi, rates, probs, tips):
                 m[m == 0] = 1.0
                 vals.append((part / m[:, None], la + lb + np.log(m), ca | cb))
         part, ls, _ = vals.pop()
-        per_cat.append(np.log(part @ np.asarray(pi)) + ls + math.log(p))
+        with np.errstate(divide="ignore"):  # a category may have likelihood exactly 0 (invariant, variable site)
+            per_cat.append(np.log(part @ np.asarray(pi)) + ls + math.log(p))
     per_cat = np.stack(per_cat)
     mx = per_cat.max(axis=0)
     return mx + np.log(np.exp(per_cat - mx).sum(axis=0))
